@@ -636,6 +636,7 @@ struct TxOut {
 const SIG_COMPLETE: &str = "complete-budget-ignores-cycles-of-the-suspended-group";
 const SIG_SIGNAL: &str = "signal-resume-restarts-the-cycle-budget";
 const SIG_IO: &str = "chunk-limit-crossed-by-io-syscall-skips-process-io";
+const SIG_SWAP: &str = "chunked-total-cycles-differ-many-vm-spawn";
 
 /// class code of ckb_vm::Error::Unexpected ("A deadlock situation has been reached!")
 fn unexpected_code() -> u64 {
@@ -655,6 +656,8 @@ fn process_tx(spec: &TxSpec, cons: &Arc<ckb_chain_spec::consensus::Consensus>, r
     let name = spec_name(spec);
     let sj = spec_json(spec);
     let uses_pipes = spec.scripts.iter().any(|(p, _, _)| p.name.starts_with("spawn"));
+    // scripts that keep more than MAX_INSTANTIATED_VMS (4) VMs alive and talk over pipes
+    let many_vms = spec.scripts.iter().any(|(p, _, _)| p.name == "spawn_cycles" || p.name == "spawn_create_17_spawn" || p.name == "spawn_cases_10");
     let whole_res = cx.verify(u64::MAX);
     let groups = match measure_groups(&cx) {
         Ok(g) => g,
@@ -788,11 +791,14 @@ fn process_tx(spec: &TxSpec, cons: &Arc<ckb_chain_spec::consensus::Consensus>, r
             _ => None,
         };
         let io = end_res.as_ref().map(|r| io_known(r)).unwrap_or(false);
-        if io {
-            runj["known_class"] = json!(SIG_IO);
+        // known class: a many-VM spawn script ends with a different cycle total
+        let swap = many_vms && matches!((&end_res, &w.res), (Some(Res::Ok(c)), Res::Ok(d)) if c != d);
+        let chunk_sig: Option<&str> = if io { Some(SIG_IO) } else if swap { Some(SIG_SWAP) } else { None };
+        if let Some(sg) = chunk_sig {
+            runj["known_class"] = json!(sg);
         }
         if let Some(msg) = check_chunk_end(&w, &run.end) {
-            t.viol.push(Violation { what: format!("{name}: {msg}"), detail: mk_detail(runj.clone()), signature: if io { Some(SIG_IO.into()) } else { None } });
+            t.viol.push(Violation { what: format!("{name}: {msg}"), detail: mk_detail(runj.clone()), signature: chunk_sig.map(|x| x.to_string()) });
         }
         if run.end == End::Open {
             bump!("run_chunked_open_at_cap");
@@ -806,8 +812,8 @@ fn process_tx(spec: &TxSpec, cons: &Arc<ckb_chain_spec::consensus::Consensus>, r
         }
         if run.limits.len() <= 20 && *skip_pause {
             let mut d = mk_detail(runj.clone());
-            if io {
-                d["known_signature"] = json!(SIG_IO);
+            if let Some(sg) = chunk_sig {
+                d["known_signature"] = json!(sg);
             }
             t.cases.push((format!("mkCase {} (RChunks {} {} {})", cg, coq_list(&run.limits, |l| coq_n(*l as u128)), coq_list(&run.susp, coq_susp), coq_end(&run.end)), d));
         }
@@ -843,12 +849,14 @@ fn process_tx(spec: &TxSpec, cons: &Arc<ckb_chain_spec::consensus::Consensus>, r
                 bump!("run_complete");
                 let mut runj = json!({"kind": "complete", "skip_debug_pause": skip_pause, "limits": pre, "state": susp_json(&sp), "max": max, "observed": res_json(&r)});
                 let io = io_known(&r);
+                // many-VM spawn scripts: the chunked prefix already changed the total
+                let swap = many_vms && matches!(w.res, Res::Ok(_)) && (matches!(&r, Res::Ok(c) if *c != cost) || (max >= cost && r.is_exceeded()));
                 if let Some(msg) = check_budget(&w, max, &r) {
                     // known class: complete() grants the suspended group the cycles it
                     // already consumed on top of the budget: it behaves like the
                     // unlimited run (or reports an internal "Other" error) although max < cost
                     let known = max < w.cost && prog > 0 && (r.same_verdict(&w.res) || matches!(&r, Res::Err(TErr { cause: Cause::Other, .. })));
-                    let sig = if io { Some(SIG_IO.to_string()) } else if known { Some(SIG_COMPLETE.to_string()) } else { None };
+                    let sig = if io { Some(SIG_IO.to_string()) } else if swap { Some(SIG_SWAP.to_string()) } else if known { Some(SIG_COMPLETE.to_string()) } else { None };
                     if let Some(s) = &sig {
                         runj["known_class"] = json!(s);
                     }
@@ -858,6 +866,8 @@ fn process_tx(spec: &TxSpec, cons: &Arc<ckb_chain_spec::consensus::Consensus>, r
                     let mut d = mk_detail(runj);
                     if io {
                         d["known_signature"] = json!(SIG_IO);
+                    } else if swap {
+                        d["known_signature"] = json!(SIG_SWAP);
                     }
                     t.cases.push((format!("mkCase {} (RComplete {} {} {} {})", cg, coq_list(&pre, |l| coq_n(*l as u128)), coq_list(&run2.susp, coq_susp), coq_n(max as u128), coq_res(&r)), d));
                 }
